@@ -11,6 +11,56 @@ RULE = ("scenario = (record lengths, control history: fresh/restored start, Conf
         "non-trivial = at least one record and more than one block")
 
 
+def edge_level_scenario(rng):
+    """Edge and level triggers together: steep pulses (edge) closely spaced, followed by slow rises that cross the level
+    without meeting the edge criterion, at every offset around the dead time of the edge records; few, long blocks."""
+    npre = rng.randint(3, 6)
+    nsamp = npre + rng.choice([8, 12, 17])
+    base, lvl = 1000, 1200
+    total = rng.randint(8, 14) * nsamp
+    xs = [base] * total
+    p = rng.randint(npre + 1, 2 * nsamp)
+    while p < total - 3 * nsamp:
+        # steep pulse: +600 in one sample, back to baseline within ~nsamp/3
+        w = max(3, nsamp // 3)
+        for i in range(p, min(total, p + w)):
+            xs[i] = base + int(600 * (1 - (i - p) / w))
+        kind = rng.choice(["slow", "slow", "steep", "none"])
+        gap = rng.randint(1, 2 * nsamp + 3)
+        q2 = p + w + gap
+        if kind == "slow" and q2 < total - 2 * nsamp:
+            # slow rise: +30 per sample (edge criterion needs >= 150 over two samples), stays above the level for a while, slow fall
+            up = 12
+            for i in range(q2, min(total, q2 + up)):
+                xs[i] = max(xs[i], base + 30 * (i - q2 + 1))
+            for i in range(q2 + up, min(total, q2 + 2 * up)):
+                xs[i] = max(xs[i], base + 30 * (2 * up - (i - q2)))
+            p = q2 + 2 * up + rng.randint(0, nsamp)
+        elif kind == "steep":
+            p = p + rng.randint(nsamp // 2, 2 * nsamp)
+        else:
+            p = q2 + rng.randint(nsamp, 3 * nsamp)
+    t = streamgen.trig_off()
+    t.update({"edge": True, "edgerising": True, "edgelevel": 150, "level": True, "levelrising": True, "levellevel": lvl})
+    steps = [{"k": "trig", "chans": [0], "t": t}]
+    cut = rng.choice(["one", "two", "three", "mixed"])
+    if cut == "one":
+        sizes = [total]
+    elif cut == "two":
+        a = rng.randint(2 * nsamp, total - 2 * nsamp)
+        sizes = [a, total - a]
+    elif cut == "three":
+        a = rng.randint(2 * nsamp, total // 2)
+        b = rng.randint(2 * nsamp, total - a - nsamp)
+        sizes = [a, b, total - a - b]
+    else:
+        sizes = streamgen.block_sizes(rng, total, nsamp)
+    for b in sizes:
+        steps.append({"k": "block", "n": b})
+    return {"origin": "edge+level", "nchan": 1, "npre": npre, "nsamp": nsamp, "signed": False, "period": 1000, "frame0": 0,
+            "start": "fresh", "trig": [t], "steps": steps, "data": [xs], "oneblock": False}
+
+
 def run(ctx):
     q = ctx.quick()
     scens, _ = sc.stream_mc(ctx, q)
@@ -19,6 +69,9 @@ def run(ctx):
     n = 250 if q else 4000
     scens += [streamgen.random_scenario(rng, allow_conn=False) for _ in range(n)]
     ctx.notes["scenarios_random"] = n
+    ne = 120 if q else 2500
+    scens += [edge_level_scenario(rng) for _ in range(ne)]
+    ctx.notes["scenarios_edge_plus_level"] = ne
     sc.validate(ctx, scens, PREFIXES)
     return vlib.finish(ctx, LEVEL, RULE,
                        ["completeness is judged only for samples at least one record after an epoch boundary and decided 2 records before the end of the stream",
